@@ -72,6 +72,10 @@ pub fn note_features(rep: &mut Report, f: &synth::Features, l: &Layout) {
 }
 
 pub fn run_c04(ctx: &Ctx, rep: &mut Report) {
+    // layouts too large for a byte vector (version 4 with DIFAT sectors), shards 9 and 10
+    if crate::props::huge::maybe_run_sparse_foreign(ctx, rep, 9) {
+        return;
+    }
     let mut i = 0;
     while let Some(case) = ctx.next_case(&mut i) {
         let mut rng = ctx.case_rng(case);
